@@ -11,6 +11,14 @@ import (
 func genC11(g *Gen) {
 	for i := 0; i < g.N; i++ {
 		g.Case()
+		if i == 0 {
+			genC11Bulk(g)
+			continue
+		}
+		if i == 1 {
+			genC11MetaBulk(g)
+			continue
+		}
 		if g.R.Chance(70) {
 			genC11Message(g)
 		} else {
@@ -69,6 +77,10 @@ func genC11Message(g *Gen) {
 		if g.R.Chance(60) {
 			emitC11(g, "retry "+[]string{"reader", "bytes"}[g.R.Intn(2)])
 		}
+		emitC11(g, fmt.Sprintf("interrupt %d", g.R.Range(1, 999)))
+		if g.R.Chance(15) {
+			emitC11(g, fmt.Sprintf("intsweep %d", []int{61, 101, 211}[g.R.Intn(3)]))
+		}
 		for k := 0; k < 3; k++ {
 			kind := []string{"flip", "trunc", "extend", "fixflip", "fixflip"}[g.R.Intn(5)]
 			emitC11(g, fmt.Sprintf("corrupt %s %s %d %d", []string{"reader", "bytes"}[g.R.Intn(2)], kind, g.R.Intn(1<<20), g.R.Intn(256)))
@@ -109,11 +121,13 @@ func genC11Meta(g *Gen) {
 			emitC11(g, fmt.Sprintf("xsub %d %d %d %s", slot, g.R.Range(1, 6), g.R.Intn(3), strings.Join(u, " ")))
 		}
 	}
+	emitC11(g, fmt.Sprintf("xuser 4 %d %d", g.R.Range(1, 12), g.R.Intn(1000))) // slot 4 is never exported: the foreign slot
 	backup := g.R.Chance(60)
 	slots := [][]string{{"1"}, {"1", "2"}, {"2", "3"}, {"1", "2", "3"}, {"3", "1"}}[g.R.Intn(5)]
 	if backup {
 		emitC11(g, "xexport backup "+strings.Join(slots, " "))
 		emitC11(g, "ximport restore")
+		emitC11(g, fmt.Sprintf("xforeign restore 4 %d", g.R.Intn(64)))
 		if g.R.Chance(50) {
 			emitC11(g, "xretry restore")
 		}
@@ -125,6 +139,7 @@ func genC11Meta(g *Gen) {
 	} else {
 		emitC11(g, "xexport full "+strings.Join(slots, " "))
 		emitC11(g, "ximport plain")
+		emitC11(g, fmt.Sprintf("xforeign plain 4 %d", g.R.Intn(64)))
 		if g.R.Chance(50) {
 			emitC11(g, "xretry plain")
 		}
@@ -134,4 +149,41 @@ func genC11Meta(g *Gen) {
 			emitC11(g, "xsweepfix plain 1")
 		}
 	}
+}
+
+// genC11Bulk: one channel with more rows than one 1024-row import batch (2500), one small channel;
+// the restore is interrupted at several points of the install pass and retried.
+func genC11Bulk(g *Gen) {
+	g.Count("case:message-bulk-2500")
+	var recs []string
+	for i := 0; i < 2500; i++ {
+		recs = append(recs, fmt.Sprintf("%d:0:0:0:%d", 1000+i, g.R.Intn(60)))
+	}
+	emitC11(g, "m app 1 1 "+strings.Join(recs, " "))
+	emitC11(g, "m ckpt 1 2500")
+	emitC11(g, "m fetch 2 2 5000:1:1:0:5 5001:2:2:0:6 5002:0:3:0:7")
+	emitC11(g, "export 1:2500 2:2")
+	emitC11(g, "import reader")
+	for _, pm := range []int{g.R.Range(30, 200), g.R.Range(350, 450), g.R.Range(550, 700), g.R.Range(800, 990)} {
+		emitC11(g, fmt.Sprintf("interrupt %d", pm))
+	}
+}
+
+// genC11MetaBulk: more than 1024 entries in the exported slot, foreign key spliced in before and after
+// the first full import batch.
+func genC11MetaBulk(g *Gen) {
+	g.Count("case:meta-bulk-1100")
+	emitC11(g, fmt.Sprintf("xuser 4 %d %d", g.R.Range(1, 12), g.R.Intn(1000)))
+	emitC11(g, fmt.Sprintf("xchan 1 %d 1 0", g.R.Range(1, 6)))
+	emitC11(g, "xbulk 1 1100")
+	mode := []string{"restore", "plain"}[g.R.Intn(2)]
+	if mode == "restore" {
+		emitC11(g, "xexport backup 1")
+	} else {
+		emitC11(g, "xexport full 1")
+	}
+	emitC11(g, "ximport "+mode)
+	emitC11(g, fmt.Sprintf("xforeign %s 4 %d", mode, g.R.Range(1030, 1100)))
+	emitC11(g, fmt.Sprintf("xforeign %s 4 %d", mode, g.R.Range(0, 900)))
+	emitC11(g, "xretry "+mode)
 }
